@@ -29,6 +29,14 @@ CHECKS.update({
    text="All byte strings up to 2 (quick) / 3 (thorough) bytes into every cdrType, primitive and sampled generated type; every truncation, bit flip and length-field substitution of every valid base/single-deviation encoding; each decode runs on a capacity-trimmed slice under recover; malformed classes must be reported as errors.",
    ref="6 C16", note=TB_E2),
 })
+CHECKS.update({
+ "C14": dict(engine=E2, technique="bounded-exhaustive enumeration of well-formed CDR file structures (all single + pairwise deviations, all 64 release-identifier combinations); Decoding(Encoding(f)) == f on the real codec",
+   text="Every well-formed file structure within 2 (thorough: 3) deviations of the base structure is written with CDRFile.Encoding and read back with CDRFile.Decoding; the result must equal the input; a subset is repeated through the real file system.",
+   ref="6 C14/C15", note=TB_E2),
+ "C15": dict(engine=E2, technique="bounded-exhaustive enumeration of well-formed CDR file structures; bytes parsed by an independent TS 32.297 clause 6.1 reader",
+   text="Same structure space as C14; the bytes produced by CDRFile.Encoding are parsed by an independent reader written from TS 32.297 6.1.1/6.1.2 which must recover every field, find extension octets exactly for release identifier 7 in high-then-low order, and consume the file exactly.",
+   ref="6 C14/C15", note=TB_E2),
+})
 NA_REASON = "check under construction (see DESIGN.md section 6)"
 
 m = {"version": 1, "setup_cmd": "./setup.sh",
